@@ -2026,6 +2026,8 @@ func (self *Aof) findRewriteAofFiles() ([]string, error) {
 }
 
 func (self *Aof) loadRewriteAofFiles(aofFilenames []string) (*AofFile, []*AofFile, error) {
+	_ = os.Remove(filepath.Join(self.dataDir, "rewrite.aof.tmp"))
+	_ = os.Remove(filepath.Join(self.dataDir, "rewrite.aof.tmp.dat"))
 	rewriteAofFile := NewAofFile(self, filepath.Join(self.dataDir, "rewrite.aof.tmp"), os.O_WRONLY, int(Config.AofFileBufferSize))
 	err := rewriteAofFile.Open()
 	if err != nil {
